@@ -1,3 +1,5 @@
+#[cfg(renoir_verif)]
+use simrt::stdshim as std;
 use std::io::ErrorKind;
 use std::time::Duration;
 
